@@ -237,9 +237,12 @@ func (c *Check) oracle(pre *St, op Op, out Outcome, post *St, m *sm.SeatManager,
 			}
 			return
 		}
-		// in between (a waiting player has to be let in): only a panic is a failure here
-		if out.Panic != "" {
-			bad("insufficient:panic", fmt.Sprintf("Next panics in [%s]", pre), "move or insufficient-players error", firstLine(out.Panic))
+		// in between: two or more players can play once the waiting ones are let in, so the move must not be refused
+		switch {
+		case out.Panic != "":
+			bad("insufficient:panic", fmt.Sprintf("Next panics in [%s]", pre), "the move", firstLine(out.Panic))
+		case out.Err != nil:
+			bad("waiting-players-not-let-in", fmt.Sprintf("Next is refused (%v) although %d players sit in and could play once the waiting ones are let in, in [%s]", out.Err, canPlay, pre), "nil", out.Err.Error())
 		}
 	case "C08":
 		if op.Kind != "Next" || out.Panic != "" || out.Err != nil {
